@@ -25,6 +25,7 @@ type Term struct {
 	QDef *Term   // leaf only: Bool symbol defined as equivalent to this quantified formula (asserted as an axiom)
 	hasBound bool // mentions a quantifier-bound variable (never abbreviated)
 	hasQ     bool // contains a quantifier (never abbreviated, so that "(forall " stays visible)
+	QReads   []traceRead // forall nested in another quantifier: the memory its body reads (see liftInner)
 	Pre      bool // leaf: a reference known to be pre-existing (< alloc0), hence distinct from every allocation of this call
 }
 
@@ -912,6 +913,15 @@ func subst(t *Term, name string, repl *Term) *Term {
 		return Eq(args[0], args[1])
 	case t.Op == "select" && len(args) == 2 && t.W >= 0:
 		return Select(args[0], args[1], t.W)
+	case t.Op == "forall":
+		q := Forall(args[0], args[1])
+		q.hasBound = freeBound(args[1], map[string]bool{args[0].Leaf: true})
+		for _, rd := range t.QReads {
+			if !strings.Contains(rd.key, name) {
+				q.QReads = append(q.QReads, traceRead{rd.key, subst(rd.abs, name, repl)})
+			}
+		}
+		return q
 	}
 	return finish(&Term{Op: t.Op, Args: args, W: t.W, Sort: t.Sort})
 }
